@@ -204,6 +204,8 @@ class PrinterVariant(Variant):
         self.world, self.cls, self.Kop, self.k = world, cls, Kop, k
         self.qualname = target
         self.dag = cls == DAG
+        if self.dag:
+            self.prop_ids = ("C07", "C20")
         self.name = "%s:%s[%s/%s]" % ("dag" if self.dag else "tree", target.rsplit(".", 1)[1], S.OPNAMES[Kop], k)
         if Kop in NARY or Kop in S.QUANT_OPS:
             self.bounded = "arity"
@@ -319,8 +321,14 @@ class PrinterVariant(Variant):
         op1 = op1 if is_z3(op1) else z3.IntVal(op1)
         if not written:
             m = match(ex, ret, want)
-            return [("text-is-the-table-row", m if m is not None else z3.BoolVal(False)),
-                    ("open-parentheses-counted", op1 == op0)]
+            goals = [("text-is-the-table-row", m if m is not None else z3.BoolVal(False)),
+                     ("open-parentheses-counted", op1 == op0)]
+            if self.k >= 1:
+                # the text of an application handed back inline is copied into every parent that refers to it: the output
+                # of a shared DAG then grows like its tree.  Only leaves may be returned as text; an application is bound
+                # to a let name
+                goals.append(("C20:application-is-bound-to-a-name-not-copied", z3.BoolVal(False)))
+            return goals
         n = ex.ghost.get("fresh_count", 0)
         if n != 1:
             return [("one-let-name-per-binding", z3.BoolVal(False))]
